@@ -78,9 +78,25 @@ def gen_group_replace(rng):
 def term_pool(rng):
     """(search, replace, words or None): words are set when the term is an ordinary multi-word identifier"""
     r = rng.random()
-    if r < 0.45:
+    if r < 0.40:
         sw, rw = gen.pick_terms(rng)
         return gen.render(rng.choice(gen.STYLES), sw), gen.render(rng.choice(gen.STYLES), rw), sw
+    if r < 0.52:
+        # an ordinary search term (so that compound identifiers embedding it exist in the files, see `occurrences`) and a
+        # replacement — sometimes also the search term — one of whose WORDS starts with, ends with or contains a multi-byte
+        # character: the case conversions and the compound matcher capitalise / slice words of the replacement
+        sw, rw = gen.pick_terms(rng)
+        def spice(words):
+            ws = list(words)
+            i = rng.randrange(len(ws))
+            ch = rng.choice(["é", "ü", "ñ", "ß", "İ", "日", "😀", "ǆ", "ﬁ", "\u0301"])
+            w = ws[i]
+            k = rng.choice([0, 0, 0, len(w), max(1, len(w) // 2)])
+            ws[i] = (ch + w[1:]) if (k == 0 and rng.random() < 0.5) else (w[:k] + ch + w[k:])
+            return ws
+        rw2 = spice(rw)
+        sw2 = spice(sw) if rng.random() < 0.25 else sw
+        return (gen.render(rng.choice(gen.STYLES), sw2), gen.render(rng.choice(gen.STYLES), rw2), sw if sw2 == sw else None)
     pool = META + SEPS + SINGLE + NONASCII + ODD
     s = rng.choice(pool)
     r2 = rng.random()
@@ -98,7 +114,11 @@ def term_pool(rng):
 def occurrences(rng, search, words):
     """byte strings in which the term occurs (different styles for ordinary terms)"""
     if words:
-        return [gen.render(st, words).encode() for st in rng.sample(gen.STYLES, 4)] + [search.encode()]
+        pas, cam, snk = gen.render("pascal", words), gen.render("camel", words), gen.render("snake", words)
+        compound = rng.sample(["get" + pas + "Value", pas + "Impl", "my_" + snk + "_x", cam + "Handler", "New" + pas, snk + "_2",
+                               "X" + gen.render("screaming_snake", words) + "_MAX", "pre-" + gen.render("kebab", words) + "-post"], 3)
+        return ([gen.render(st, words).encode() for st in rng.sample(gen.STYLES, 4)] + [search.encode()]
+                + [c.encode() for c in compound])
     return [search.encode()] * 2 + [search.upper().encode(), search.lower().encode()]
 
 
